@@ -103,6 +103,7 @@ class Spec:
         self.on_call = None
         self.abstract_comprehensions = set()   # (qualname, ordinal) whose value is Untracked
         self.truthy_classes = set()            # Obj class tags whose instances are always truthy (e.g. re.Match)
+        self.stop = None                       # (qualname, lineno, callback(I, frame)): verify a prefix of a long function
 
 
 def assigned_and_mutated(body):
@@ -415,6 +416,10 @@ class Interp:
             self.exec_stmt(s, fr)
 
     def exec_stmt(self, s, fr):
+        st = self.spec.stop
+        if st is not None and fr.fi.qualname == st[0] and s.lineno >= st[1] and fr is self.frames[0]:
+            st[2](self, fr)
+            raise PathEnd()
         m = getattr(self, 'st_' + type(s).__name__, None)
         if m is None:
             raise Unsupported('statement %s at %s:%d' % (type(s).__name__, fr.fi.file, s.lineno))
